@@ -26,6 +26,7 @@ type PropConfig struct {
 	// Corpus: the property also speaks about generated code; packages are then
 	// loaded through the scratch corpus module (which replaces templ by the repository).
 	Corpus     bool
+	Also       string   // the contracts of this other property are verified in this run as well
 	CorpusOnly []string // quick tier: restrict the corpus to these directories (empty = all)
 }
 
@@ -102,6 +103,7 @@ func cmdCheck(args []string) int {
 	}
 	e := NewEngine(absRepo)
 	e.prop = cfg.ID
+	e.alsoProp = cfg.Also
 	r.e = e
 	if err := e.langs.LoadDir(filepath.Join(*verif, "contracts", "lang")); err != nil {
 		fmt.Fprintln(os.Stderr, "lang:", err)
